@@ -189,6 +189,8 @@ GRIDS = [1, 2, 3]
 # the last interval covers every bounds entirely (added after seeded defect C20_6, a whole-plane shortcut in find(), was missed)
 INTERVALS = [(-5.0, -3.5), (-3.0, -0.5), (-0.7, 0.0), (-0.7, 2.0), (-0.5, 0.5), (0.5, 1.5), (1.5, 3.0), (2.0, 8.5), (5.5, 9.0), (-5.0, 9.0)]
 QUERIES = [(ax[0], ay[0], ax[1], ay[1]) for ax in INTERVALS for ay in INTERVALS]
+# pairs of queries whose iterators are consumed interleaved (added after seeded defect C20_7 was missed)
+INTERLEAVED = [((-5.0, -5.0, 9.0, 9.0), (-5.0, -5.0, 9.0, 9.0)), ((-5.0, -5.0, 9.0, 9.0), (0.5, 0.5, 1.5, 1.5)), ((-0.7, -0.7, 2.0, 2.0), (-5.0, -5.0, 9.0, 9.0))]
 
 
 def proper(a, b):
@@ -199,12 +201,18 @@ def build_plane(bounds, grid, hist):
     objs = {n: Box(n, *c) for (n, *c) in BOXES}
     pl = utils.Plane(bounds, gridsize=grid)
     live = []
+    pl._verif_errors = []  # exceptions raised by add/remove on legal calls (judged in check_plane)
     for op, n in hist:
+        try:
+            if op == "add":
+                pl.add(objs[n])
+            else:
+                pl.remove(objs[n])
+        except Exception as e:  # noqa
+            pl._verif_errors.append(f"{op} {n}: {type(e).__name__}")
         if op == "add":
-            pl.add(objs[n])
             live.append(n)
         else:
-            pl.remove(objs[n])
             live.remove(n)
     return pl, objs, live
 
@@ -225,6 +233,18 @@ def check_plane(bounds, grid, state, hist, st):
     pl, objs, live = state
     case = {"kind": "plane", "bounds": bounds, "grid": grid, "hist": list(hist)}
     st.case(None, nontrivial=bool(live), outcome=(tuple(live)))
+    for err in getattr(pl, "_verif_errors", []):
+        st.violation("C20/plane-operation-raises:" + err.split(": ")[1], case, "no exception", err, "add/remove of a legal object raised")
+    # two find() iterators consumed interleaved must not disturb each other
+    for qa, qb in INTERLEAVED:
+        if proper(qa, bounds) and proper(qb, bounds):
+            alone = [o.name for o in pl.find(qa)]
+            it = pl.find(qa)
+            first = [o.name for o in itertools.islice(it, 1)]
+            list(pl.find(qb))
+            mixed = first + [o.name for o in it]
+            if mixed != alone:
+                st.violation("C20/plane-find-interleaved-iterators", {**case, "query": qa, "other": qb}, alone, mixed, "a find() in progress is disturbed by another find()")
     got_iter = [o.name for o in pl]
     if got_iter != live:
         st.violation("C20/plane-iter-order-or-duplicates", case, live, got_iter, "iteration != live objects in insertion order, each once")
